@@ -20,6 +20,7 @@ import (
 	"context"
 	"fmt"
 	"sync"
+	"sync/atomic"
 	"time"
 
 	"github.com/pkg/errors"
@@ -74,6 +75,9 @@ func (w *CronWorker) WorkerName() string {
 // Init is called before we start the worker. We will initialize all JobConfigs
 // into the Schedule.
 func (w *CronWorker) Init() error {
+	// From this point on, newly added JobConfigs are flushed by the informer.
+	atomic.StoreUint32(&w.scheduleInitialized, 1)
+
 	jobConfigs, err := w.jobconfigInformer.Lister().JobConfigs(metav1.NamespaceAll).List(labels.Everything())
 	if err != nil {
 		return errors.Wrapf(err, "cannot list all jobconfigs")
